@@ -268,15 +268,15 @@ def p_C07(ctx):
 # receiver family (Access.tla / AccessMC.tla)
 # --------------------------------------------------------------------------------------
 BIG_MAX, BIG_HALF, BIG_HALF1, BIG_P32, BIG_WRAP = 1000001, 1000002, 1000003, 1000004, 1000005
-ACC_READ = {"idx_coord", "idx_row", "col_idx", "get_unchecked", "get_unchecked_row", "row", "col", "size"}
+ACC_READ = {"idx_coord", "idx_row", "col_idx", "get_unchecked", "get_unchecked_row", "row", "col", "size", "debug", "as_view"}
 ACC_WRITE = {"idxm_coord", "idxm_row", "colm_idx", "colm_idxm", "get_unchecked_mut", "get_unchecked_row_mut"}
-ACC_OP_PROPS = {"col": {"C02", "C09"}, "size": {"C03"}, "view": {"C03"}, "view_mut": {"C03"},
+ACC_OP_PROPS = {"col": {"C02", "C09"}, "size": {"C03"}, "debug": {"C03"}, "as_view": {"C03"}, "view": {"C03"}, "view_mut": {"C03"},
                 "fill": {"C13"}, "swap": {"C13"}, "swap_rows": {"C13"}, "swap_cols": {"C13"}, "row_pair_swap": {"C13"},
                 "write_rows_mut": {"C08"}, "write_cells_mut": {"C10"}, "write_col_mut": {"C09"},
                 "copy_from_slice": {"C14"}, "clone_from_slice": {"C14"}, "copy_from_toodee": {"C14"},
                 "clone_from_toodee": {"C14"}, "copy_within": {"C14"},
                 "translate": {"C15"}, "flip_rows": {"C15"}, "flip_cols": {"C15"}}
-for _o in (ACC_READ | ACC_WRITE) - {"col", "size"}:
+for _o in (ACC_READ | ACC_WRITE) - {"col", "size", "debug", "as_view"}:
     ACC_OP_PROPS[_o] = {"C02"}
 ACC_MUTATING = (ACC_WRITE - {"colm_idx"}) | {"view_mut", "fill", "swap", "swap_rows", "swap_cols", "row_pair_swap", "write_rows_mut",
                 "write_cells_mut", "write_col_mut", "copy_from_slice", "clone_from_slice", "copy_from_toodee",
